@@ -290,7 +290,13 @@ func execC11(c C11Case) *Failure {
 				o.closed = true
 				o.lr.PeerGone()
 				lr := StartLive(h, "GET", "http://verif/mcp", map[string]string{"Accept": "text/event-stream", "Mcp-Session-Id": conn.SessionID}, nil, nil)
-				if !lr.WaitFlushedHeader(Patience()) || lr.Returned() {
+				opened := lr.WaitFlushedHeader(Patience())
+				if lr.Returned() {
+					// a fact, not a matter of waiting: the handler of the new stream has ended while its peer is connected
+					st, _, body, _, _, _ := lr.Snapshot()
+					return Failf("C11/newest-stream-ended", "%s: the GET racing with the old stream's teardown (attempt %d) ended although its peer is still connected (status %d, %d body bytes)", where, k, st, len(body))
+				}
+				if !opened {
 					return TimingFailf("C11/stream-not-opened", "%s: the GET racing with the old stream's teardown did not open", where)
 				}
 				ns := &c11Stream{lr: lr, gen: len(streams)}
